@@ -96,6 +96,8 @@ class Var(Aggregation):
         self.ddof = ddof
 
     def _compute_result(self, x, x2, n):
+        if isinstance(n, Number) and n == 0:
+            return np.nan  # nothing seen yet (plain Python zeros): pandas gives NaN; 0 / 0 would raise
         result = (x2 / n) - (x / n) ** 2
         if self.ddof != 0:
             result = result * n / (n - self.ddof)
